@@ -94,6 +94,14 @@ Models ==
                   ax0 |-> T("i64", <<1>>, <<0>>), st |-> T("i64", <<1>>, <<1>>), en |-> T("i64", <<1>>, <<3>>), idx |-> T("i64", <<2>>, <<2, 0>>),
                   shp13 |-> T("i64", <<2>>, <<1, 3>>)]],
     \* an input with an initializer as its default: a call that supplies it must not change what a later call without it reads
+    \* operators that may hand back their operand object itself (Expand with nothing to stretch, Concat of one tensor), applied to
+    \* weights, their results consumed by other nodes and NOT returned: whatever a Run does with what lived only inside it, the
+    \* weights are the same weights in the next Run
+    hidden_identities |->
+      [nodes |-> <<Nd("Expand", <<>>, <<"w", "shp">>, <<"e">>), Nd("Concat", <<AI("axis", 0)>>, <<"w2">>, <<"c1">>),
+                   Nd("Concat", <<AI("axis", 0)>>, <<"e", "x", "c1">>, <<"y">>), Nd("Add", <<>>, <<"x", "c1">>, <<"z">>)>>,
+       inputs |-> <<InD("x", <<DSym, DFix(3)>>)>>, outputs |-> <<"y", "z">>,
+       inits |-> [w |-> T("f32", <<2, 3>>, <<1, 2, 3, 4, 5, 6>>), w2 |-> T("f32", <<1, 3>>, <<20, 21, 22>>), shp |-> T("i64", <<2>>, <<2, 3>>)]],
     defaulted_input |->
       \* (the node producing vw reads initializers only, one of which the caller may override)
       [nodes |-> <<Nd("Add", <<>>, <<"x", "v">>, <<"a">>), Nd("Sub", <<>>, <<"v", "a">>, <<"m">>), Nd("Mul", <<>>, <<"v", "w2">>, <<"vw">>)>>,
